@@ -508,7 +508,8 @@ class RoundGen:
             self.emit({"k": "condition", "indent": indent + 2, "expr": expr, "unevaluable": kind})
             return
         # properties directly after the new node
-        if cfg["constraints"] and not shape and (declare or st["value"] is not None):
+        if cfg["constraints"] and not shape and (declare or st["value"] is not None
+                                                 or rng.random() < 0.3):
             self.s_properties(path, indent + 2)
         if not declare and rng.random() < cfg["p_constant"] and not self.stopped:
             self.emit({"k": "constant", "indent": indent + 2})
@@ -710,7 +711,7 @@ class RoundGen:
         v = self.good_value(node)
         unit = None
         none_unit = False
-        if fault == "bad_value" and rng.random() < 0.12 and not node["declared"] and \
+        if fault == "bad_value" and rng.random() < 0.25 and not node["declared"] and \
                 node["dims"] is None and (node["options"] or node["condition"] is not None
                                           or node["format"] is not None):
             # none is no option, makes no condition true and matches no format
